@@ -49,6 +49,9 @@ CORPUS = [
     # forget call with arg-hash prefix and metadata
     [["memoize", 1, 1, None, 1], ["wmeta", 1, 1, 1, 7], ["wmeta", 1, 1, 2, 8], ["memoize", 1, 2, None, 2], ["wmeta", 1, 2, 1, 9],
      ["fcall", 1, 1], ["rmeta", 1, 1, 1], ["rmeta", 1, 1, 2], ["rmeta", 1, 2, 1], ["lsm", 1]],
+    # listings with a limit count live entries only (custom metadata files are not entries)
+    [["memoize", 1, 1, None, 1], ["wmeta", 1, 1, 1, 7], ["wmeta", 1, 1, 2, 8], ["memoize", 1, 2, None, 2], ["wmeta", 1, 2, 1, 9],
+     ["memoize", 1, 3, None, 3], ["lsml", 1, 1], ["lsml", 1, 2], ["lsml", 1, 3], ["fcall", 1, 2], ["lsml", 1, 3], ["lsml", 1, 2]],
     # override keys shared between calls; null results
     [["memoize", 1, 1, 1, 3], ["memoize", 4, 1, 1, 5], ["lookread", 1, 1], ["memoize", 4, 2, 1, None], ["lookread", 4, 1], ["lookread", 4, 2], ["lookread", 1, 1]],
     [["memoize", 6, 1, None, 2], ["lookread", 6, 1], ["lsf"], ["lsm", 6], ["ffn", 6], ["lsf"]],
@@ -68,7 +71,7 @@ def main(chk, replay=None):
                 "argument hashes x ~40 values, run on memory / fs / fs+separate metadata / fs+cache(600B, 2500B, 200kB). "
                 "Distinct = distinct (backend config, op list); non-trivial = has >= 1 memoize and >= 1 forget or re-memoize.")
     chk.assumptions += ["write_metadata is only issued for memoized calls (how the framework uses it)",
-                        "store_with_content_key metadata and list limits are outside the op language"]
+                        "store_with_content_key metadata is outside the op language; list limits are checked against the dictionary (count = min(limit, live), subset of the live entries) but are not in the Lean op language"]
     proof_ok = chk.build_and_audit()
     quick = chk.tier == "quick"
     rng = chk.rng
